@@ -206,6 +206,7 @@ ASPECTS = {
     "C04": "while a batch is open every assignment still hands its event to every watcher, also when an equal event (same transition) is already pending: the flush keeps the LAST event per parameter, so a skipped one leaves the watchers with a stale value",
     "C05": "everything an assignment does besides notifying (store, link install/drop, post_setter, dependency rebinding) is done before the first watcher runs: a watcher that raises must not leave the assignment half applied (value stored, link unchanged)",
     "C07": "every assignment on an initialized instance re-resolves the dependencies that pass through the assigned parameter, whatever the new value is (detaching to None or to a plain value must take the watchers off the detached object), after the store and before the watchers run",
+    "C18": "every assignment is validated -- also re-assigning the very object the parameter already holds: for a Selector the objects in force may have changed since (the held object may have been removed), so an unvalidated re-assignment makes the accepted values disagree with the objects",
     "C08": "relink(ref) iff a reference was assigned; relink(None) iff a plain value overrides an existing link (not for the sync's own write)",
     "C10": "a plain value that overrides an existing link ends it -- relink(None) is what cancels the pending asynchronous evaluation -- and a new reference replaces the old one (not for the sync's own write)",
     "C12": "class route writes the class default only, instance routes the instance store only -- and always record the value for the instance, also when it is the object the class default currently is",
@@ -252,6 +253,9 @@ def classify(c, got, want):
         out.add("C03")
         if c["batch"] and [t for t in gd if t.startswith("dispatch")] != [t for t in wd if t.startswith("dispatch")]:
             out.add("C04")
+    if "validate" in wtrace and "validate" not in gtrace:
+        out.add("C18")
+        out.add("C01")
     if ("update_deps" in wtrace) != ("update_deps" in gtrace) and not gexc and not wexc:
         out.add("C07")
     first_notify = next((i for i, t in enumerate(gtrace) if t.startswith(("dispatch", "flush"))), None)
